@@ -17,8 +17,8 @@ deriving Repr, Inhabited
 
 inductive Pending where
   | none
-  | write (k : Key) (ts : Nat) (m : Option Meta) (d : Data) (ok : Bool) (switched : Bool)
-  | delete (k : Key) (ts : Nat) (m : Option Meta) (oip : Bool) (n : Option Nat)
+  | write (k : Key) (ts : Nat) (m : Option Meta) (d : Data) (ok : Bool) (switched : Bool) (cancelled : Bool := false)
+  | delete (k : Key) (ts : Nat) (m : Option Meta) (oip : Bool) (n : Option Nat) (cancelled : Bool := false)
 deriving Repr, Inhabited
 
 structure St where
@@ -28,6 +28,13 @@ structure St where
   allowDup : Bool := false
   maxId : Option Nat := none
   fresh : Bool := true     -- no `#states` seen yet in this scenario
+  /-- records of cancelled (dropped-future) operations that have not shown up yet: they may still take effect, at the
+      latest at the next start -/
+  limbo : List (Rec × Nat × Nat) := []      -- record, blob id, position in the blob at the time of the cancellation
+  /-- cancelled operations that had not shown up by the first start after the cancellation -/
+  expired : List (Rec × Nat × Nat) := []
+  /-- a restart happened since the last probe -/
+  restarted : Bool := false
 deriving Inhabited
 
 def parseStates (s : String) : Option (List BlobSt) :=
@@ -55,6 +62,21 @@ def isLive (h : History) (k : Key) (m : Option Meta) : Bool :=
   | none => (Spec.latest h k).isFound
   | some m => (Spec.readWith h k m).isFound
 
+/-- a record of a cancelled operation shows up in blob `id`: it was appended at the time of the cancellation, i.e. it
+    sits at the position the blob had then -/
+def placeLimbo (h : History) (id : Nat) (e : Rec × Nat × Nat) : History :=
+  let l := histGet h id
+  let pos := if e.2.1 == id then min e.2.2 l.length else l.length
+  histSet h id (l.take pos ++ [e.1] ++ l.drop pos)
+
+/-- choose `n` pending records for a blob that grew: those cancelled while that blob was the target first -/
+def pickLimbo (pool : List (Rec × Nat × Nat)) (id n : Nat) : List (Rec × Nat × Nat) × List (Rec × Nat × Nat) :=
+  let mine := pool.filter (fun e => e.2.1 == id)
+  let others := pool.filter (fun e => e.2.1 != id)
+  let fromMine := mine.take n
+  let fromOthers := others.take (n - fromMine.length)
+  (fromMine ++ fromOthers, mine.drop n ++ others.drop (n - fromMine.length))
+
 def showReadP : ReadResult PRec → String
   | .found p => "found " ++ showData p.r.data
   | .deleted t => s!"deleted {t}"
@@ -78,32 +100,68 @@ def onStates (st : St) (obs : List BlobSt) : St × String :=
   let st' := { st with blobs := obs, maxId := maxId, fresh := false, pending := .none }
   if shrink then ({ st' with hist := hist0 }, "MISMATCH records-lost")
   else
+    let st' := { st' with limbo := if st.restarted then [] else st.limbo, restarted := false }
     match st.pending with
     | .none =>
       if grow.any (fun g => g.2 > 0) && !st.fresh then
-        -- records appeared that no acknowledged operation explains
-        ({ st' with hist := hist0 }, "MISMATCH unexplained-growth")
+        -- records appeared that no acknowledged operation explains: only a cancelled operation may still land,
+        -- and only until the first start after the cancellation
+        let total := (grow.map (·.2)).foldl (· + ·) 0
+        if total ≤ st.limbo.length then
+          let (hist1, rest) := grow.foldl (fun (acc : History × List (Rec × Nat × Nat)) g =>
+              let (take, rest) := pickLimbo acc.2 g.1.id g.2
+              (take.foldl (fun h e => placeLimbo h g.1.id e) acc.1, rest)) (hist0, st.limbo)
+          ({ st' with hist := hist1, limbo := if st.restarted then [] else rest,
+                      expired := if st.restarted then st.expired ++ rest else st.expired }, "ok")
+        else if total ≤ st.limbo.length + st.expired.length then
+          -- a cancelled operation shows up later than the first start after its cancellation
+          let pool := st.limbo ++ st.expired
+          let (hist1, rest) := grow.foldl (fun (acc : History × List (Rec × Nat × Nat)) g =>
+              let (take, rest) := pickLimbo acc.2 g.1.id g.2
+              (take.foldl (fun h e => placeLimbo h g.1.id e) acc.1, rest)) (hist0, pool)
+          ({ st' with hist := hist1, limbo := [], expired := rest },
+            "MISMATCH late-effect: a cancelled operation took effect later than the first start after its cancellation")
+        else ({ st' with hist := hist0 }, "MISMATCH unexplained-growth")
+      else if st.restarted then ({ st' with hist := hist0, expired := st.expired ++ st.limbo }, "ok")
       else ({ st' with hist := hist0 }, "ok")
-    | .write k ts m d ok switched =>
+    | .write k ts m d ok switched cancelled =>
       let r : Rec := { key := k, ts := ts, del := false, mt := m.getD none, data := d }
       let grown := grow.filter (fun g => g.2 > 0)
       let expectStore := ok && (st.allowDup || !isLive st.hist k m)
       match grown with
       | [] =>
-        if expectStore then ({ st' with hist := hist0 }, "MISMATCH write-not-stored")
+        if cancelled then
+          -- not (yet) visible: it may still land until the next start
+          let where_ := match obs.find? (·.active) with
+            | some a => (a.id, (histGet hist0 a.id).length)
+            | none => (0, 0)
+          ({ st' with hist := hist0, limbo := if expectStore then st'.limbo ++ [(r, where_)] else st'.limbo }, "ok")
+        else if expectStore then ({ st' with hist := hist0 }, "MISMATCH write-not-stored")
         else ({ st' with hist := hist0 }, "ok")
       | [(b, 1)] =>
         let hist1 := histSet hist0 b.id (histGet hist0 b.id ++ [r])
         if !ok then ({ st' with hist := hist1 }, "MISMATCH failed-write-stored")
         else if !expectStore then ({ st' with hist := hist1 }, "MISMATCH duplicate-stored")
-        else if !(if switched then (st.blobs.any (fun o => o.id == b.id && o.active)) || !(st.blobs.any (·.active))
+        else if !(if switched || cancelled then
+                    b.active || (st.blobs.any (fun o => o.id == b.id && o.active)) || !(st.blobs.any (·.active))
                   else b.active) then
           ({ st' with hist := hist1 }, "MISMATCH write-not-in-active")
         else ({ st' with hist := hist1 }, "ok")
       | _ => ({ st' with hist := hist0 }, "MISMATCH write-placement")
-    | .delete k ts m oip n =>
+    | .delete k ts m oip n cancelled =>
       let r : Rec := { key := k, ts := ts, del := true, mt := m.getD none, data := ⟨0, 0⟩ }
       if grow.any (fun g => g.2 > 1) then ({ st' with hist := hist0 }, "MISMATCH delete-placement")
+      else if cancelled then
+        -- a dropped delete may have marked any subset of its targets; the rest may still land until the next start
+        let marked := (grow.filter (fun g => g.2 == 1)).map (·.1.id)
+        let expected := (obs.filter (fun b =>
+            (b.active && !oip) || Spec.liveIn b.id (histGet st.hist b.id) k)).map (·.id)
+        let hist1 := marked.foldl (fun h id => histSet h id (histGet h id ++ [r])) hist0
+        if marked.all (fun id => expected.contains id) then
+          ({ st' with hist := hist1,
+                      limbo := st'.limbo ++ ((expected.filter (fun id => !marked.contains id)).map
+                                 (fun id => (r, id, (histGet hist0 id).length))) }, "ok")
+        else ({ st' with hist := hist1 }, s!"MISMATCH delete-targets expected⊆{expected} got={marked}")
       else
         let marked := (grow.filter (fun g => g.2 == 1)).map (·.1.id)
         -- expected: active blob when !oip (created on demand), and every blob where the key is live
@@ -128,8 +186,17 @@ def step (st : St) (line : String) : St × String :=
   match line.splitOn " => " with
   | [cmd, out] =>
     let out := out.trimAscii.toString
-    match cmd.trimAscii.toString.splitOn " " with
+    let toksAll := cmd.trimAscii.toString.splitOn " "
+    -- `cancel <k> <op...>`: the operation future was dropped after k polls (`cancelled`) or completed (`<out> polls=n`)
+    let isCancel := toksAll.head? == some "cancel"
+    let cancelled := isCancel && out.startsWith "cancelled"
+    let out := if isCancel then (out.splitOn " polls=").headD out else out
+    let out := if cancelled then "ok" else out
+    match (if isCancel then toksAll.drop 2 else toksAll) with
     | "cfg" :: toks => ({ allowDup := toks.any (· == "dup=1") }, "ok")
+    | "restart" :: _ => ({ st with restarted := true }, "ok")
+    | "open" :: _ => ({ st with restarted := true }, "ok")
+    | "replayfrom" :: _ => ({ st with restarted := true }, "ok")
     | ["states"] =>
       match parseStates out with
       | some obs => onStates st obs
@@ -137,13 +204,13 @@ def step (st : St) (line : String) : St × String :=
     | ["w", k, ts, m, len, seed] =>
       match hexNat k, ts.toNat?, parseMeta m, len.toNat?, seed.toNat? with
       | some k, some ts, some m, some len, some seed =>
-        ({ st with pending := .write k ts m ⟨len, if len == 0 then 0 else seed⟩ (out == "ok" || out.startsWith "ok ") (out.endsWith " switched") }, "ok")
+        ({ st with pending := .write k ts m ⟨len, if len == 0 then 0 else seed⟩ (out == "ok" || out.startsWith "ok ") (out.endsWith " switched") cancelled }, "ok")
       | _, _, _, _, _ => (st, "skip")
     | ["d", k, ts, m, oip] =>
       match hexNat k, ts.toNat?, parseMeta m, oip.toNat? with
       | some k, some ts, some m, some oip =>
         let n := if out.startsWith "n=" then (out.drop 2).toString.toNat? else none
-        if out.startsWith "n=" then ({ st with pending := .delete k ts m (oip != 0) n }, "ok")
+        if out.startsWith "n=" || cancelled then ({ st with pending := .delete k ts m (oip != 0) n cancelled }, "ok")
         else (st, "ok")
       | _, _, _, _ => (st, "skip")
     | ["r", k] =>
